@@ -269,9 +269,18 @@ pub(super) fn read_artifact_range(
         .read(&mut buf)
         .map_err(|err| format!("read artifact failed: {err}"))?;
     buf.truncate(read_bytes);
+    // A page that is not the last one must not end inside a multi-byte character: the next page
+    // starts where this one stops.
+    if (offset_bytes + read_bytes as u64) < total_bytes {
+        if let Err(err) = std::str::from_utf8(&buf) {
+            if err.error_len().is_none() && err.valid_up_to() > 0 {
+                buf.truncate(err.valid_up_to());
+            }
+        }
+    }
 
     let (content, utf8_truncated, used_bytes) = truncate_utf8(&buf, max_bytes);
-    let truncated = utf8_truncated || (offset_bytes + read_bytes as u64) < total_bytes;
+    let truncated = utf8_truncated || (offset_bytes + used_bytes as u64) < total_bytes;
     Ok((content, used_bytes, total_bytes, truncated))
 }
 
